@@ -191,7 +191,7 @@ impl Prop for C05 {
     type Input = Input;
 
     fn budget(tier: Tier) -> u64 {
-        tier.pick(100_000, 2_000_000)
+        tier.pick(600_000, 4_000_000)
     }
 
     fn strategy(tier: Tier) -> BoxedStrategy<Case> {
